@@ -27,11 +27,20 @@ class C06(Prop):
         out = []
         src = texts(rng, tier, 500, 8000)
         for _ in range(60 if tier == 'quick' else 2000): src.append(('junction', '\n'.join(junction(rng))))
+        # every diagonal of 3..29 cells with a horizontal branch at every interior row (float exactness of point-on-segment)
+        for L in range(3, 30):
+            for row in range(1, L):
+                for ch in '/\\':
+                    rows = gens.run_rows(ch, L, 'd2' if ch == '/' else 'd1')
+                    rows[row] = rows[row] + '---'
+                    src.append(('junction-sweep', '\n' + '\n'.join(rows)))
+        for g, t in gens.g_shape(rng, 150 if tier == 'quick' else 3000):
+            if g == 'shape:arc': src.append((g, t))
         for g, t in src:
             if '# Legend:' in t or '\r' in t: continue
             if tier == 'quick' or rng.random() < 0.5: k = rng.choice([0, 1, 2, 7, 50, 399]); n = rng.choice([0, 1, 3, 20, 199])
             else: k = rng.randint(0, 400); n = rng.randint(0, 200)
-            if g == 'junction': k = rng.choice([0, 1, 2, 5]); n = rng.choice([0, 1, 2])
+            if g.startswith('junction'): k = rng.choice([2, 5]); n = rng.choice([0, 1, 2])
             if k == 0 and n == 0: k = 1
             out.append(self.make(g, t, k, n))
         return out
